@@ -796,13 +796,16 @@ Lemma step_spec Hp v o v' ev c :
   v = run_state E Hp -> Inv Hp v -> step E v o = (v', ev, c) ->
   Inv (Hp ++ [o]) v' /\ Forall (EvOK (Hp ++ [o]) (strict_of o) v') ev.
 Proof.
-  intros Hv Hi Hx. apply (Inv_mono Hp [o]) in Hi. destruct o as [r i s cert maxp|m|h b|r i]; cbn in Hx.
+  intros Hv Hi Hx. apply (Inv_mono Hp [o]) in Hi. destruct o as [r i s cert maxp|m|h b|r i|]; cbn in Hx.
   - destruct (update_context E v r i s cert maxp) as [v1 e1] eqn:Hu. inversion Hx; subst v' ev.
     eapply update_context_spec; eassumption.
   - destruct (process_spec Hp v m v' ev c Hv Hi Hx) as (A & B & C). split; [exact A|].
     eapply Forall_impl; [|exact C]. intros e. apply EvOK_frame_rev. exact B.
   - destruct b; inversion Hx; subst v' ev; (split; [eapply Inv_same; try exact Hi; reflexivity|constructor]).
   - inversion Hx; subst v' ev. split; [eapply Inv_same; try exact Hi; reflexivity|constructor].
+  - inversion Hx; subst v' ev. split; [|constructor]. split.
+    + intros key w [].
+    + intros h t Hs. cbn in Hs. discriminate Hs.
 Qed.
 
 Lemma run_state_snoc Hp o : run_state E (Hp ++ [o]) = fst (fst (step E (run_state E Hp) o)).
